@@ -22,12 +22,20 @@ STATEMENTS = [
     (["def dec{k}(f):", "    return lambda *a: ('decorated', f(*a))", "@dec{k}", "def g{k}(a):", "    return a", "print(g{k}({k}))"], 'threestmts'),
     (["v{k} = '''first{k}", "second line", "third'''", "print(v{k})"], 'string'),
     (["# a comment {k}", "v{k} = ({k},", "       {k} + 1)"], None),
-    (["{k} + 1"], None),
+    (["{k} + 1"], 'expr'),
     (["import asyncio", "await asyncio.sleep(0)", "v{k} = 'awaited'"], None),
     (["async def co{k}():", "    return {k}", "v{k} = await co{k}()"], 'twostmts'),
     (["try:", "    v{k} = 1 // 0", "except ZeroDivisionError:", "    v{k} = 'caught'", "finally:", "    print('finally{k}')"], None),
     (["with __import__('contextlib').suppress(KeyError):", "    v{k} = {{}}['missing']"], None),
     (["class C{k}:", "    attr = {k}", "    def m(self):", "        return self.attr", "print(C{k}().m())"], 'twostmts'),
+    (["v{k} = 1; print('semi{k}')"], None),
+    (["v{k} = 1 + \\", "    {k}"], None),
+    (["v{k} = f'{{ {k} + 1 }} and {{{{literal}}}}'", "print(v{k})"], None),
+    (["print('no newline{k}', end='')", "print()"], None),
+    (["v{k} = (lambda a: a + {k})(1)"], None),
+    (["if (n{k} := {k}) > 0:", "    v{k} = n{k}"], None),
+    (["v{k} = '>>> not a prompt # xdoctest: +SKIP'"], None),        # (its text is only shown by the final repr: a want line cannot start with a prompt)
+    (["v{k} = [", "    1,", "", "    2]"], None),
 ]
 FINAL = ["print(sorted((n, repr(v)) for n, v in globals().items() if n.startswith('v') and n[1:].isdigit()))"]
 
@@ -128,9 +136,10 @@ def run(eng, tier, seed):
                 break
             wants = []
             pending = ''
-            for o in outs:
+            for (g_lines, g_kind), o in zip(groups, outs):
                 pending += o
-                if pending.strip() and '\n\n' not in pending and rnd.random() < 0.6:
+                # (no want right after a bare expression statement: there the REPL reading shows its value as well)
+                if g_kind != 'expr' and pending.strip() and '\n\n' not in pending and rnd.random() < 0.6:
                     wants.append(pending)
                     pending = ''
                 else:
